@@ -309,18 +309,22 @@ def r5(ctx):
               got=(len(resp), len(ack), len(snd)), key="once-each")
     if ok and oo:
         ob = oo[0][0]
-        ctx.check("MockExchange::run:OpenOrder", b.dominates(ob, resp[0][0]) and "open_order" in render(resp[0][2][2][2]),
+        ctx.check("MockExchange::run:OpenOrder", b.dominates(ob, resp[0][0]) and resp[0][2][2][2] == mir.mk_proj(oo[0][2], ("0",)) and
+                  render(resp[0][2][2][1]).endswith(".kind.as:OpenOrder.response_tx") and render(oo[0][2][2][1]).endswith(".kind.as:OpenOrder.request"),
                   "the response sent is open_order's response", got=render(resp[0][2])[:200], key="responds")
         for nm, c in (("ack_trade", ack[0]), ("send_notifications", snd[0])):
             g = b.guard(c[0])
-            somes = [a for conj in g for a in conj if a[0] == "is" and a[2] == frozenset(["Some"]) and "open_order" in render(a[1])]
+            somes = [a for conj in g for a in conj if a[0] == "is" and a[2] == frozenset(["Some"]) and a[1] == mir.mk_proj(oo[0][2], ("1",))]
             other = sorted(set(mir.render_atom(a)[:100] for conj in g for a in conj
                                if a not in somes and not (a[0] == "is" and (a[2] <= {"OpenOrder", "Some", "Ready"}))))
             ctx.check("MockExchange::run:OpenOrder:" + nm, bool(somes) and b.dominates(ob, c[0]) and not other,
                       "performed exactly when open_order returned notifications (no other condition)", sites=[c[1]["sp"]],
                       got={"guard": render_guard(g)[-200:], "other": other}, key="iff-some")
-        ctx.check("MockExchange::run:OpenOrder:ack_trade", "open_order" in render(ack[0][2][2][1]) and "trade" in render(ack[0][2][2][1]),
-                  "the acknowledged trade is the accepted order's trade", got=render(ack[0][2])[:200], key="trade")
+        note = mir.mk_proj(oo[0][2], ("1", "as:Some", "0"))
+        ctx.check("MockExchange::run:OpenOrder:ack_trade", ack[0][2][2][1] == mir.mk_proj(note, ("trade",)),
+                  "the acknowledged trade is exactly the accepted order's trade", got=render(ack[0][2])[-120:], key="trade")
+        ctx.check("MockExchange::run:OpenOrder:send_notifications", snd[0][2][2][1] == note,
+                  "the notifications sent are exactly the ones open_order returned (unfiltered)", got=render(snd[0][2])[-120:], key="payload")
     # the spawned notifier sends balance then trade, once each
     sn = ctx.find(name="send_notifications_with_latency", self_adt=MX, trait="")
     inner = [d for d in ctx.closures_of(sn)]
@@ -383,13 +387,45 @@ def r6(ctx):
         if c:
             cc = atoms.canon_cmp(*c)
             got = (cc[0], render(cc[1]), render(cc[2]))
-            ok = cc[0] == "le" and "time_since" in render(cc[1]) and render(cc[2]).endswith("time_exchange")
+            ok = cc[0] == "le" and render(cc[1]) == "^time_since" and render(cc[2]) == "$1.time_exchange"
     ctx.check("AccountState::trades", ok, "trades(since) keeps exactly the trades with time_exchange >= since", got=got, key="filter")
+    # query arms of the run loop answer on the request's own channel with the ledger views, unfiltered
+    run = ctx.body(ctx.find(path="barter_execution::exchange::mock::MockExchange::run::{closure#0}"))
+    req = "Future::poll(UnboundedReceiver::recv(^self.request_rx), future::get_context(resume)).as:Ready.0.as:Some.0.kind"
+    want = {
+        "FetchAccountSnapshot": "MockExchange::account_snapshot(^self)",
+        "FetchBalances": "Iterator::collect(Iterator::cloned(AccountState::balances(^self.account)))",
+        "FetchOrdersOpen": "Iterator::collect(Iterator::cloned(AccountState::orders_open(^self.account)))",
+        "FetchTrades": "Iterator::collect(Iterator::cloned(AccountState::trades(^self.account, %s.as:FetchTrades.time_since)))" % req,
+    }
+    got = {}
+    for bi, t, tm in run.real_calls():
+        if mir.short(tm[1]) == "MockExchange::respond_with_latency":
+            tx = render(tm[2][1])
+            for k in want:
+                if tx == "%s.as:%s.response_tx" % (req, k):
+                    got[k] = render(tm[2][2])
+    ctx.check("MockExchange::run:queries", got == want,
+              "each query is answered on its own channel with the ledger's view (snapshot / all balances / all open orders / trades since), unfiltered",
+              got=got, want=want, key="query-arms")
     # account_snapshot reports the ledger's own balances / orders
     snap = ctx.fbody(name="account_snapshot", self_adt=MX, trait="")
     names = sorted(set(mir.short(term[1]) for _, _, term in snap.real_calls()))
     ctx.check("MockExchange::account_snapshot", "AccountState::balances" in names and "AccountState::orders_open" in names,
               "snapshots are built from the ledger's balances and open orders", got=names, key="sources")
+    rt = snap.return_term()
+    fl = dict(zip(rt[2], rt[3])) if rt[0] == "agg" else {}
+    allowed = {"Iterator::collect", "Iterator::map", "Iterator::cloned", "Iterator::chain", "Itertools::chunk_by", "Itertools::sorted_unstable_by_key",
+               "AccountState::orders_open", "AccountState::orders_cancelled"}
+    used = set(mir.short(t[1]) for t in mir.subterms(fl.get("instruments", ("none",))) if t[0] == "call")
+    cls = [render(ctx.body(d).return_term()) for d in ctx.closures_of(snap.defn)]
+    ctx.check("MockExchange::account_snapshot", render(fl.get("exchange", ("none",))) == "self.exchange" and
+              render(fl.get("balances", ("none",))) == "Iterator::collect(Iterator::cloned(AccountState::balances(self.account)))" and
+              used == allowed and cls == ["$1.key.instrument", "$1.key.instrument",
+                                          "InstrumentAccountSnapshot::InstrumentAccountSnapshot{instrument: $1.0, orders: Iterator::collect($1.1)}"],
+              "the snapshot holds the exchange's id, every balance, and every open / cancelled order grouped by its own instrument "
+              "(only element-preserving adaptors; sort key = group key)", got={"adaptors": sorted(used - allowed), "missing": sorted(allowed - used), "closures": cls},
+              key="unfiltered")
 
 
 def r7(ctx):
